@@ -18,6 +18,7 @@ def run(ctx):
     res.extra["announcement_derived_roster_checks"] = sum(r.get("derived_checks", 0) for r in results)
     res.floor("view_probes", probes, 300)
     res.floor("membership_changes", changes, 500)
+    common.run_big(ctx, res, ("C04",))
     for r in results[:3]:
         if r.get("tail"):
             res.add_sample({"episode_seed": r["seed"], "last_commands": r["tail"]})
